@@ -336,12 +336,13 @@ impl<'i, const N: usize, I: SuperClassProvider> BRemapper for BRemapperImpl<'_, 
 				let src = name.to_owned();
 				return Ok(Some(FieldNameAndDesc { desc, name: src }));
 			}
+		}
 
-			if let Some(super_classes) = self.inheritance.get_super_classes(owner_name)? {
-				for super_class in super_classes {
-					if let Some(remapped) = self.map_field_fail(super_class, field_name, field_desc)? {
-						return Ok(Some(remapped));
-					}
+		// the super types are searched as well when the owner itself has no mapping
+		if let Some(super_classes) = self.inheritance.get_super_classes(owner_name)? {
+			for super_class in super_classes {
+				if let Some(remapped) = self.map_field_fail(super_class, field_name, field_desc)? {
+					return Ok(Some(remapped));
 				}
 			}
 		}
@@ -358,12 +359,13 @@ impl<'i, const N: usize, I: SuperClassProvider> BRemapper for BRemapperImpl<'_, 
 				let src = name.to_owned();
 				return Ok(Some(MethodNameAndDesc { desc, name: src }));
 			}
+		}
 
-			if let Some(super_classes) = self.inheritance.get_super_classes(owner_name)? {
-				for super_class in super_classes {
-					if let Some(remapped) = self.map_method_fail(super_class, method_name, method_desc)? {
-						return Ok(Some(remapped));
-					}
+		// the super types are searched as well when the owner itself has no mapping
+		if let Some(super_classes) = self.inheritance.get_super_classes(owner_name)? {
+			for super_class in super_classes {
+				if let Some(remapped) = self.map_method_fail(super_class, method_name, method_desc)? {
+					return Ok(Some(remapped));
 				}
 			}
 		}
